@@ -12,7 +12,13 @@ import (
 //                 hyphens gives the same string (hyphens never remove anything but whitespace);
 //   (faces-text)  when every hyphen faces literal text, the output equals that of the template
 //                 with the hyphens dropped and that adjacent whitespace deleted;
-//   (no-hyphens)  a template without hyphens loses nothing (it is the reference of the other two).
+//   (no-hyphens)  a template without hyphens loses nothing (it is the reference of the other two);
+//   (value-bytes)  the bytes of a printed value appear unchanged, white space at their edges included, whatever hyphens
+//                 stand next to the object (C05; since the repair verbatim-output-not-trimmed): four bindings hold
+//                 values with white space at both edges and a core that occurs nowhere else (a string, a []byte, a
+//                 drop of a string, an array = two Write calls); about a third of the generated objects print one of
+//                 them, and every occurrence of a core in the output must be the whole value, as often as without the
+//                 hyphens.
 // Captured text is only printed in these templates (DESIGN C13 scope note 1). Every variant is an
 // ordinary `render` line, so the model is compared on all of them.
 
@@ -33,6 +39,12 @@ func stripAllSpace(s string) string {
 func hyphensStream(r *Run) {
 	g := NewRNG(r.Seed, "hyphens")
 	env := tokEnv()
+	// values with white space at both edges; the core (W1..W4) occurs in no literal text and in no other value
+	wsVals := []struct{ name, val, core string }{
+		{"wsv", " \tW1\n ", "W1"}, {"wsb", "\n W2  ", "W2"}, {"wsd", "\u00a0 W3\u2003", "W3"}, {"wsa", "  W4\t W4\n", "W4\t W4"},
+	}
+	env["wsv"], env["wsb"], env["wsd"] = VStr(" \tW1\n "), VBytes("\n W2  "), VDrop(VStr("\u00a0 W3\u2003"))
+	env["wsa"] = VAnys(VStr("  W4\t"), VStr(" W4\n"))
 	n := 260
 	if r.Tier == "thorough" {
 		n = 4000
@@ -124,6 +136,13 @@ func hyphensStream(r *Run) {
 				if items[i].Text == "" {
 					items[i].Text = " "
 				}
+			}
+		}
+		// a neighbour's hyphen next to a VALUE with white space at its edges: about a third of the objects print one
+		for i := range items {
+			if items[i].Kind == 'o' && g.Chance(35) {
+				items[i].Args = wsVals[g.Intn(len(wsVals))].name
+				r.Count("object-prints-value-with-blank-edges")
 			}
 		}
 		// consecutive text items are ONE literal text for the tokenizer (the source is their
@@ -226,6 +245,17 @@ func hyphensStream(r *Run) {
 			if stripAllSpace(out) != stripAllSpace(outPlain) {
 				r.Violate("C13", "hyphens-remove-only-whitespace", cl, fmt.Sprintf("without hyphens %q ; with %q", outPlain, out))
 				continue
+			}
+			// (value-bytes) every occurrence of a core is the whole value, as often as without the hyphens
+			for _, w := range wsVals {
+				if nPlain := strings.Count(outPlain, w.core); nPlain > 0 || strings.Contains(out, w.core) {
+					r.Count("value-bytes-checked")
+					if strings.Count(out, w.val) != nPlain || strings.Count(out, w.core) != nPlain || strings.Count(outPlain, w.val) != nPlain {
+						r.Violate("C13", "value-bytes-unchanged-next-to-hyphen", cl,
+							fmt.Sprintf("value %q: without hyphens %q ; with %q", w.val, outPlain, out))
+						break
+					}
+				}
 			}
 			if facesText {
 				// the reference template has no hyphens at all
